@@ -38,7 +38,7 @@ def execute(rec):
     g = M.build(rec["recipe"])
     sub = dict(mu=rec["mu"], lam=rec["lam"], neu=sorted(rec["neu"]), error="", fields=[])
     nd = g.dim
-    flds = M.fields_for(nd)
+    flds = M.fields_for(nd, rec.get("few", False))
     try:
         mats, dirf, neu0, sgn = discretize(g, rec["mu"], rec["lam"], rec["neu"], rec["inverter"], rec.get("partition"))
         for fld in flds:
@@ -84,7 +84,7 @@ def plan(ctx):
     rng = ctx.rng
     q = ctx.quick
     if q:
-        sizes = [(1, 1), (2, 1), (2, 2), (3, 2), (3, 3), (1, 1, 1), (2, 1, 1), (1, 2, 2)]
+        sizes = [(1, 1), (2, 1), (2, 2), (3, 2), (1, 1, 1), (2, 1, 1)]
     else:
         sizes = [(a, b) for a in (1, 2, 3) for b in (1, 2, 3)] + [(a, b, c) for a in (1, 2) for b in (1, 2) for c in (1, 2)]
     fam = M.Family(ctx, sizes, [1, 2], [0, 1, 3], max_neu=2)
@@ -99,12 +99,12 @@ def plan(ctx):
         # quick: one pair of Lame parameters per (grid, boundary mode), rotating through the six pairs
         if q and (c["mu"] * 7 + c["lam"] + gi[k]) % 6 != 0:
             continue
-        base = dict(recipe=recipes[k], mu=c["mu"], lam=c["lam"], inverter="python", partition=None)
+        base = dict(recipe=recipes[k], mu=c["mu"], lam=c["lam"], inverter="python", partition=None, few=q)
         if c["bc"] == "dir":
             recs.append(dict(base, neu=[]))
             continue
         sets = [s for s in neusets[k] if s]
-        chosen = M.pick(sets, (1 if dim == 3 else 2) if q else 3, rng)
+        chosen = M.pick(sets, 1 if q else 3, rng)
         if dim == 2:
             # 2D: any mix is admissible - add a seeded random mix with many Neumann faces
             bf = [int(f) + 1 for f in grids[k].get_all_boundary_faces()]
@@ -131,8 +131,8 @@ def plan(ctx):
                 rcp = M.recipe_for(kind, list(n), variant, rng)
                 g = M.build(rcp)
                 for part in ({"num_subproblems": 3}, {"max_memory": 20000 if len(n) == 2 else 400000}):
-                    extra.append(dict(recipe=rcp, mu=2, lam=1, inverter="python", partition=part, neu=[]))
-                    extra.append(dict(recipe=rcp, mu=1, lam=3, inverter="numba", partition=part,
+                    extra.append(dict(recipe=rcp, mu=2, lam=1, inverter="python", partition=part, neu=[], few=False))
+                    extra.append(dict(recipe=rcp, mu=1, lam=3, inverter="numba", partition=part, few=False,
                                       neu=greedy_no_shared_edge(g, rng)[:: 2]))
         recs += extra
     return recs
@@ -187,5 +187,6 @@ def replay(ctx, body):
     rec = body["record"]
     r = {k: rec[k] for k in ("recipe", "mu", "lam", "neu", "inverter")}
     r["partition"] = rec.get("partition")
+    r["few"] = rec.get("few", False)
     judge(ctx, [r], prefix="replayed: ")
     ctx.sample(dict(recipe=r["recipe"]["base"], neu=r["neu"]))
